@@ -386,7 +386,10 @@ class IfExpressionParser:
 
     def __init__(self):
         # create parsing grammer
-        sQStringLiteral = pyparsing.QuotedString("'")
+        # Single quoted strings are taken verbatim. Do not let pyparsing
+        # convert backslash sequences (\t, \x41, ...) in them.
+        sQStringLiteral = pyparsing.QuotedString("'",
+            convert_whitespace_escapes=False)
         sQStringLiteral.set_parse_action(
             lambda s, loc, toks: StringLiteral(s, loc, toks, False))
 
